@@ -464,6 +464,35 @@ func c14Ops() []c14Op {
 			cl.Do(adapt.Op{Kind: adapt.OpDelete, Table: "tbl14", Key: c14SecondKey()})
 			return root, it, true
 		}},
+		{"output/PutItem.Attributes", func(ad string, cl adapt.Client, it val.Item) (interface{}, val.Item, bool) {
+			// the item is written once more (same content): whatever the output carries belongs to the caller
+			if ad == "v1" {
+				out, err := cl.Raw().(*v1client.Client).PutItem(&v1ddb.PutItemInput{TableName: aws.String("tbl14"), Item: adapt.ItemToV1(it)})
+				if err != nil || out == nil {
+					return nil, nil, false
+				}
+				return out.Attributes, it, true
+			}
+			out, err := cl.Raw().(*v2client.Client).PutItem(ctx, &v2ddb.PutItemInput{TableName: v2aws.String("tbl14"), Item: adapt.ItemToV2(it)})
+			if err != nil || out == nil {
+				return nil, nil, false
+			}
+			return out.Attributes, it, true
+		}},
+		{"output/PutItem.Attributes(ALL_OLD)", func(ad string, cl adapt.Client, it val.Item) (interface{}, val.Item, bool) {
+			if ad == "v1" {
+				out, err := cl.Raw().(*v1client.Client).PutItemWithContext(ctx, &v1ddb.PutItemInput{TableName: aws.String("tbl14"), Item: adapt.ItemToV1(it), ReturnValues: aws.String("ALL_OLD")})
+				if err != nil || out == nil {
+					return nil, nil, false
+				}
+				return out.Attributes, it, true
+			}
+			out, err := cl.Raw().(*v2client.Client).PutItem(ctx, &v2ddb.PutItemInput{TableName: v2aws.String("tbl14"), Item: adapt.ItemToV2(it), ReturnValues: "ALL_OLD"})
+			if err != nil || out == nil {
+				return nil, nil, false
+			}
+			return out.Attributes, it, true
+		}},
 		{"output/UpdateItem.Attributes", func(ad string, cl adapt.Client, it val.Item) (interface{}, val.Item, bool) {
 			exp := it.Clone()
 			exp["touched"] = val.Str("yes")
